@@ -161,6 +161,8 @@ pub enum EvKind {
     /// message ID the client-side handle reports for the call (last_id() right after start)
     Return { client: usize, step: usize, token: String, ret: Ret, last_id: i32 },
     ClientDone { client: usize },
+    /// outcome of the result helper methods on the returned value: success(), non_error(), equal()
+    Helpers { client: usize, step: usize, rc: u32, success: bool, non_error: bool, equal: Option<Option<bool>> },
     SrvRecv { arrival: usize, id: i64, kind: String, token: String, strict: Vec<String>, range: (usize, usize) },
     SrvUndecodable { at: usize, why: String },
     SrvEmit { emission: usize, id: i64, label: String, range: (usize, usize) },
